@@ -30,7 +30,11 @@ def td_fields(t):
     return dict(a["required_fields"].__annotations__), dict(a["optional_fields"].__annotations__)
 
 
-origin = typing.get_origin
+def origin(t):
+    o = typing.get_origin(t)
+    return Union if o is getattr(types, "UnionType", ()) else o  # `X | Y` (PEP 604) is a union like any other
+
+
 args = typing.get_args
 
 
